@@ -471,6 +471,23 @@ Qed.
 
 Lemma Pf_Pf s : Pf s -> Pf s. Proof. exact (fun H => H). Qed.
 
+(* the first micro-operation of any table entry, started from the power-on registers, keeps clear of OAM and LCDC *)
+Lemma first_uop_af (s1 : cpu) (cb : bool) u a :
+  from_tables gen_tables (cur s1) -> cyc s1 = 0%nat -> nth_error (cur s1) (cyc s1) = Some u ->
+  ra s1 = 1 -> rb s1 = 0 -> rc s1 = 19 -> rd s1 = 0 -> re s1 = 216 -> rf s1 = 176 -> rh s1 = 1 -> rl s1 = 77 -> sp s1 = 65534 ->
+  u8a s1 = 0 -> u8b s1 = 0 ->
+  pc s1 = (if cb then 258 else 257) ->
+  In a (uop_addrs u s1) -> Af a.
+Proof.
+  intros Hft Hc Hu E1 E2 E3 E4 E5 E6 E7 E8 E9 E10 E11 Epc Ha. rewrite Hc in Hu.
+  pose proof (first_ok_from_tables _ Hft) as Q. unfold first_ok in Q.
+  destruct (cur s1) as [|u0 rest]; [discriminate Hu|]. cbn [nth_error] in Hu. inversion Hu; subst u0.
+  apply andb_prop in Q. destruct Q as [Q1 Q2]. rewrite forallb_forall in Q1, Q2.
+  apply afb_ok. destruct cb.
+  - apply Q2. rewrite (uop_addrs_regs u s1 (fresh_cpu 258)); [exact Ha|..]; cbn [fresh_cpu pc rh rl rb rc rd re sp u8a u8b]; congruence.
+  - apply Q1. rewrite (uop_addrs_regs u s1 (fresh_cpu 257)); [exact Ha|..]; cbn [fresh_cpu pc rh rl rb rc rd re sp u8a u8b]; congruence.
+Qed.
+
 Lemma first_cpu_cycle s : Pf s -> bus_pending s = 0 ->
   let r := sys_cpu_cycle (cpu_init, s) in
   cwf (fst r) /\ from_tables gen_tables (cur (fst r)) /\ Pf (snd r) /\ outcome_ok (fst r).
@@ -502,26 +519,9 @@ Proof.
   - exact F4.
   - rewrite F5. reflexivity.
   - (* the first micro-operation reaches neither OAM nor LCDC *)
-    intros u Hu a Ha. rewrite F3b in Hu.
-    pose proof (first_ok_from_tables _ F6) as Q. unfold first_ok in Q.
-    destruct (cur s1) as [|u0 rest]; [discriminate Hu|]. cbn [nth_error] in Hu. inversion Hu; subst u0.
-    apply andb_prop in Q. destruct Q as [Q1 Q2]. rewrite forallb_forall in Q1, Q2.
-    apply afb_ok.
-    destruct (snd (bus_rd s (pc cpu_init)) =? 203).
-    + apply Q2. rewrite (uop_addrs_regs u s1 (fresh_cpu 258)); [exact Ha|..]; cbn [fresh_cpu pc rh rl rb rc rd re sp u8a u8b];
-        try (rewrite Fpc; reflexivity); cbn [cpu_init pc rh rl rb rc rd re sp u8a u8b] in *; congruence.
-    + apply Q1. rewrite (uop_addrs_regs u s1 (fresh_cpu 257)); [exact Ha|..]; cbn [fresh_cpu pc rh rl rb rc rd re sp u8a u8b];
-        try (rewrite Fpc; reflexivity); cbn [cpu_init pc rh rl rb rc rd re sp u8a u8b] in *; congruence.
-  - intros u Hu a Ha0. pose proof (uop_waddrs_sub _ _ _ Ha0) as Ha. rewrite F3b in Hu.
-    pose proof (first_ok_from_tables _ F6) as Q. unfold first_ok in Q.
-    destruct (cur s1) as [|u0 rest]; [discriminate Hu|]. cbn [nth_error] in Hu. inversion Hu; subst u0.
-    apply andb_prop in Q. destruct Q as [Q1 Q2]. rewrite forallb_forall in Q1, Q2.
-    apply afb_ok.
-    destruct (snd (bus_rd s (pc cpu_init)) =? 203).
-    + apply Q2. rewrite (uop_addrs_regs u s1 (fresh_cpu 258)); [exact Ha|..]; cbn [fresh_cpu pc rh rl rb rc rd re sp u8a u8b];
-        try (rewrite Fpc; reflexivity); cbn [cpu_init pc rh rl rb rc rd re sp u8a u8b] in *; congruence.
-    + apply Q1. rewrite (uop_addrs_regs u s1 (fresh_cpu 257)); [exact Ha|..]; cbn [fresh_cpu pc rh rl rb rc rd re sp u8a u8b];
-        try (rewrite Fpc; reflexivity); cbn [cpu_init pc rh rl rb rc rd re sp u8a u8b] in *; congruence.
+    intros u Hu a Ha. eapply first_uop_af; try eassumption; try reflexivity.
+  - intros u Hu a Ha0. pose proof (uop_waddrs_sub _ _ _ Ha0) as Ha.
+    eapply first_uop_af; try eassumption; try reflexivity.
   - split; [split; assumption|]. split; [rewrite R3; exact F6|]. split; assumption.
 Qed.
 
